@@ -15,6 +15,8 @@ PID = 'C12'
 LEVEL = 'exploration'
 BUDGET = {'quick': 6000, 'thorough': 300000}
 CAP_S = {'quick': 150, 'thorough': 3000}
+# thorough tier only: 300 s x 8 coverage-guided libFuzzer campaigns over the same strategy and oracle (vlib/fuzz_driver.py)
+FUZZ = {'thorough': (300, 8)}
 RULE = ('case = (base hint T, 1-3 validator expression trees over Is/IsAttr/IsEqual/IsInstance/IsSubclass with & | ~ up to depth 5 '
         '(8 thorough), object: scalars, classes, attribute bags nested to the depth of the expression with attribute names chosen to '
         'collide after mangling, objects lacking attributes). Oracle: my own evaluator of the boolean meaning; asserted equal to it: '
